@@ -1,8 +1,10 @@
 pub mod common;
 pub mod soup;
+pub mod spline;
 pub mod c01;
 pub mod c02;
 pub mod c03;
+pub mod c06;
 pub mod c07;
 pub mod c08;
 pub mod c09;
@@ -24,6 +26,9 @@ pub fn all() -> Vec<Box<dyn DynProp>> {
         Box::new(c01::C01),
         Box::new(c02::C02),
         Box::new(c03::C03::default()),
+        Box::new(spline::C04),
+        Box::new(spline::C05),
+        Box::new(c06::C06),
         Box::new(c07::C07),
         Box::new(c08::C08),
         Box::new(c09::C09),
